@@ -299,3 +299,34 @@ Theorem C09_imgiter_subb_decides :
     TI.model.ImgIterSrcTie.all_subb a b = true <-> Forall2 (@TI.model.ImgIterSrc.Sub (nat * nat)) a b.
 Proof. exact TI.proofs.ImgIterSrcTieProofs.all_subb_iff. Qed.
 Print Assumptions C09_imgiter_subb_decides.
+
+(** ** Source tie of the cache discipline (gen/CacheKeySrc.v is regenerated from
+    render/_iterator.py on every run by harness/tx/tx_cachekey.py) *)
+From TI Require Import model.IterKey gen.CacheKeySrc proofs.CacheKeyTie.
+
+(** the model's validity test compares exactly the components the source compares, in the
+    source's order; look-up and store list the same components; the cache holds unpadded
+    frames (the padded frame is built after the store and never written back) *)
+Theorem C09_source_cache_key :
+  (forall e r a, key_eqb e r a = key_eqb_by src_key_lookup e r a)
+  /\ src_key_lookup = src_key_store /\ src_cache_holds_unpadded = true.
+Proof. exact (conj key_eqb_is_source_lemma lookup_store_agree_lemma). Qed.
+Print Assumptions C09_source_cache_key.
+
+(** the entry the source stores is the entry the model stores, and it is valid for the
+    settings it was stored under *)
+Theorem C09_source_stored_entry :
+  forall e0 fr r a,
+    store_by src_key_store e0 fr r a
+    = {| ce_frame := fr; ce_size := d_size r; ce_dur := d_dur r; ce_args := a |}
+    /\ key_eqb (store_by src_key_store e0 fr r a) r a = true.
+Proof. exact stored_entry_is_model_lemma. Qed.
+Print Assumptions C09_source_stored_entry.
+
+(** a test that leaves out any one component accepts an entry the full test rejects *)
+Theorem C09_source_key_without_component_refuted :
+  (exists e r a, key_eqb_by [KDur; KArgs] e r a = true /\ key_eqb e r a = false)
+  /\ (exists e r a, key_eqb_by [KSize; KArgs] e r a = true /\ key_eqb e r a = false)
+  /\ (exists e r a, key_eqb_by [KSize; KDur] e r a = true /\ key_eqb e r a = false).
+Proof. exact key_without_component_refuted_lemma. Qed.
+Print Assumptions C09_source_key_without_component_refuted.
